@@ -178,18 +178,42 @@ struct Timer {
 }
 
 fn new_timer(after: bool, idx: usize) -> Timer {
+    new_timer_built(after, idx, 0)
+}
+
+/// `built`: 0 = builder chain (`then_send`); 1 = the timer future is created by `into_future`
+/// when the command is constructed and only awaited when the task first runs (a gap between
+/// creating and first polling the future in which the handle can be used)
+fn new_timer_built(after: bool, idx: usize, built: u8) -> Timer {
+    let outcome = move |o: TimerOutcome| Ev::Outcome(idx, matches!(o, TimerOutcome::Completed(_)));
     let (cmd, handle) = if after {
         let (b, h) = Time::notify_after(StdDuration::from_millis(300));
-        (
-            b.then_send(move |o| Ev::Outcome(idx, matches!(o, TimerOutcome::Completed(_)))),
-            h,
-        )
+        let cmd = if built == 0 {
+            b.then_send(outcome)
+        } else {
+            Command::new(move |ctx| {
+                let fut = b.into_future(ctx.clone());
+                async move {
+                    let o = fut.await;
+                    ctx.send_event(outcome(o));
+                }
+            })
+        };
+        (cmd, h)
     } else {
         let (b, h) = Time::notify_at(SystemTime::UNIX_EPOCH + StdDuration::from_secs(1_700_000_000));
-        (
-            b.then_send(move |o| Ev::Outcome(idx, matches!(o, TimerOutcome::Completed(_)))),
-            h,
-        )
+        let cmd = if built == 0 {
+            b.then_send(outcome)
+        } else {
+            Command::new(move |ctx| {
+                let fut = b.into_future(ctx.clone());
+                async move {
+                    let o = fut.await;
+                    ctx.send_event(outcome(o));
+                }
+            })
+        };
+        (cmd, h)
     };
     Timer {
         cmd,
@@ -260,8 +284,8 @@ fn apply(t: &mut Timer, a: Act, problems: &mut Vec<String>) -> (usize, usize, Ve
     seen
 }
 
-fn run_sequence(seq: &[Act], after: bool, ids: &mut HashSet<usize>) -> Result<(String, Option<bool>), (String, String)> {
-    let mut t = new_timer(after, 0);
+fn run_sequence(seq: &[Act], after: bool, built: u8, ids: &mut HashSet<usize>) -> Result<(String, Option<bool>), (String, String)> {
+    let mut t = new_timer_built(after, 0, built);
     let mut exp = Expect::new();
     let mut problems = vec![];
     for (i, a) in seq.iter().enumerate() {
@@ -334,20 +358,21 @@ fn c18(args: &Args, report: &Arc<Mutex<Report>>, wd: &Watchdog) {
                 seq.push(ACTS[(x % 7) as usize]);
                 x /= 7;
             }
-            for after in [true, false] {
+            for (after, built) in [(true, 0u8), (false, 0), (true, 1), (false, 1)] {
                 total += 1;
                 if total % 4096 == 1 {
-                    wd.begin(|| json!({"lane": "timelab", "sequence": seq, "notify_after": after}).to_string());
+                    wd.begin(|| json!({"lane": "timelab", "sequence": seq, "notify_after": after, "built": built}).to_string());
                 }
-                let res = vcommon::trap(|| run_sequence(&seq, after, &mut ids));
+                let res = vcommon::trap(|| run_sequence(&seq, after, built, &mut ids));
                 let mut r = report.lock().unwrap();
                 r.eval();
                 match res {
                     Ok(Ok((class, outcome))) => {
                         r.set("end_classes", class);
                         if seq.len() >= 2 {
-                            r.nontrivial(hash_json(&(&seq, after)));
+                            r.nontrivial(hash_json(&(&seq, after, built)));
                         }
+                        r.set("timer_constructions", if built == 0 { "builder.then_send" } else { "into_future at construction, awaited in the task" });
                         match outcome {
                             Some(true) => r.count("sequences_ending_completed", 1),
                             Some(false) => r.count("sequences_ending_cleared", 1),
@@ -360,7 +385,7 @@ fn c18(args: &Args, report: &Arc<Mutex<Report>>, wd: &Watchdog) {
                     Ok(Err((sig, what))) => r.violation(
                         &sig,
                         &what,
-                        json!({"lane": "timelab", "sequence": seq, "notify_after": after, "what": what}),
+                        json!({"lane": "timelab", "sequence": seq, "notify_after": after, "built": built, "what": what}),
                     ),
                     Err(p) => r.violation(
                         &format!("panic/{}", vcommon::panic_site(&p)),
@@ -545,6 +570,144 @@ fn legacy_timers(report: &Arc<Mutex<Report>>, wd: &Watchdog, ids: &mut HashSet<u
                         shell = TypedShell::<caplab::app::AppD>::new("Core(derive)");
                     }
                 }
+            }
+        }
+    }
+    // ---- started and cleared in the same update: nothing but the Clear goes to the shell, the ----
+    // ---- outcome is Cleared at once (both APIs) ---------------------------------------------------
+    for rep in 0..40u64 {
+        for api in [Api::Legacy, Api::Command] {
+            let res = vcommon::trap(|| -> Result<(), (String, String)> {
+                let before = shell.log().map_err(|e| ("legacy/call-failed".to_string(), e))?.len();
+                let reqs = shell.send(&Job::Time(api, TimeJob::SetThenClearNanos(5 + rep))).map_err(|e| ("legacy/call-failed".to_string(), e))?;
+                let timer_requests = reqs.iter().filter(|(_, op)| matches!(op, Op::Time(TimeRequest::NotifyAfter { .. }) | Op::Time(TimeRequest::NotifyAt { .. }))).count();
+                if timer_requests != 0 {
+                    return Err(("timer/request-sent-although-cleared-before-start".into(), format!("{api:?}: {reqs:?}")));
+                }
+                let clears = reqs.iter().filter(|(_, op)| matches!(op, Op::Time(TimeRequest::Clear { .. }))).count();
+                let want_clears = if api == Api::Legacy { 1 } else { 0 };
+                if clears != want_clears || reqs.len() != want_clears {
+                    return Err(("timer/unexpected-clear-request".into(), format!("{api:?}: {reqs:?}, expected {want_clears} clear notification(s) and nothing else")));
+                }
+                let log = shell.log().map_err(|e| ("legacy/call-failed".to_string(), e))?;
+                let outs: Vec<&Outcome> = log[before..].iter().collect();
+                let ok = matches!(&outs[..], [Outcome::Time(TimeOut::Cleared(_))]);
+                if !ok {
+                    return Err(("timer/outcome-missing".into(), format!("{api:?}: a timer cleared in the update that started it reported {outs:?}, expected exactly Cleared")));
+                }
+                Ok(())
+            });
+            let mut r = report.lock().unwrap();
+            r.eval();
+            r.count("set_then_clear_in_one_update", 1);
+            match res {
+                Ok(Ok(())) => r.nontrivial(hash_json(&("set-then-clear", rep, api == Api::Legacy))),
+                Ok(Err((sig, what))) => r.violation(&sig, &what, json!({"lane": "timelab-legacy", "job": "SetThenClear", "what": what})),
+                Err(p) => {
+                    r.violation(&format!("panic/{}", vcommon::panic_site(&p)), &format!("panic in set-then-clear: {p}"), json!({"lane": "timelab-legacy"}));
+                    drop(r);
+                    shell = TypedShell::<caplab::app::AppD>::new("Core(derive)");
+                }
+            }
+        }
+    }
+
+    // ---- several legacy timers at once, with other timers being cleared late in between ----------
+    // (the capability API keeps cleared ids in a process-wide set: a clear that is still waiting
+    // to be observed must survive whatever else happens to that set)
+    let mut rng = Rng::new(0x1e9ac1);
+    for case_no in 0..120u64 {
+        let k = rng.range(2, 4) as usize;
+        let steps = rng.range(3, 12) as usize;
+        // (timer, action): 0 = clear, 1 = fire, 2 = noise (other timers fire and are cleared late)
+        let script: Vec<(usize, u8, u64)> = (0..steps).map(|_| (rng.usize_below(k), rng.below(3) as u8, rng.range(1, 60))).collect();
+        let res = vcommon::trap(|| -> Result<usize, (String, String)> {
+            let fail = |e: String| ("legacy/call-failed".to_string(), e);
+            let before = shell.log().map_err(fail)?.len();
+            let mut timers = vec![];
+            for _ in 0..k {
+                let reqs = shell.send(&Job::Time(Api::Legacy, TimeJob::NotifyAfterNanos(7))).map_err(fail)?;
+                let (h, id) = match &reqs[..] {
+                    [(h, Op::Time(TimeRequest::NotifyAfter { id, .. }))] => (*h, *id),
+                    other => return Err(("legacy/not-exactly-one-timer-request".into(), format!("{other:?}"))),
+                };
+                if !ids.insert(id.0) {
+                    return Err(("timer/id-reused".into(), format!("legacy timer got id {} which another timer in this process has", id.0)));
+                }
+                timers.push((h, id, false, false)); // (handle, id, cleared, answered)
+            }
+            let mut want: Vec<(u64, bool)> = vec![]; // (id, completed)
+            for (i, what, n) in &script {
+                let (h, id, cleared, answered) = timers[*i];
+                match what {
+                    0 => {
+                        shell.send(&Job::Time(Api::Legacy, TimeJob::Clear(id.0 as u64))).map_err(fail)?;
+                        if !answered {
+                            timers[*i].2 = true;
+                        }
+                    }
+                    1 => {
+                        let r = shell.respond(h, Resp::Time(TimeResponse::DurationElapsed { id }));
+                        if !answered {
+                            timers[*i].3 = true;
+                            want.push((id.0 as u64, !cleared));
+                            r.map_err(|e| ("legacy/first-answer-rejected".to_string(), e))?;
+                        }
+                    }
+                    _ => {
+                        for _ in 0..*n {
+                            let reqs = shell.send(&Job::Time(Api::Legacy, TimeJob::NotifyAfterNanos(3))).map_err(fail)?;
+                            let (nh, nid) = match &reqs[..] {
+                                [(h, Op::Time(TimeRequest::NotifyAfter { id, .. }))] => (*h, *id),
+                                other => return Err(("legacy/not-exactly-one-timer-request".into(), format!("{other:?}"))),
+                            };
+                            ids.insert(nid.0);
+                            shell.respond(nh, Resp::Time(TimeResponse::DurationElapsed { id: nid })).map_err(fail)?;
+                            want.push((nid.0 as u64, true));
+                            shell.send(&Job::Time(Api::Legacy, TimeJob::Clear(nid.0 as u64))).map_err(fail)?;
+                            shell.drop_request(nh);
+                        }
+                    }
+                }
+            }
+            let log = shell.log().map_err(fail)?;
+            let got: Vec<(u64, bool)> = log[before..]
+                .iter()
+                .filter_map(|o| match o {
+                    Outcome::Time(TimeOut::Completed(i)) => Some((*i, true)),
+                    Outcome::Time(TimeOut::Cleared(i)) => Some((*i, false)),
+                    _ => None,
+                })
+                .collect();
+            if got != want {
+                let wrong: Vec<_> = got.iter().filter(|g| !want.contains(g)).collect();
+                let sig = if wrong.iter().any(|(_, completed)| *completed) {
+                    "legacy/completed-although-cleared-first"
+                } else if !wrong.is_empty() {
+                    "legacy/cleared-without-app-clear"
+                } else {
+                    "legacy/outcome-differs"
+                };
+                return Err((sig.into(), format!("outcomes (id, completed) {got:?}, expected {want:?}")));
+            }
+            for (h, ..) in timers {
+                shell.drop_request(h);
+            }
+            Ok(want.len())
+        });
+        let mut r = report.lock().unwrap();
+        r.eval();
+        r.count("legacy_multi_timer_runs", 1);
+        match res {
+            Ok(Ok(n)) => {
+                r.count("legacy_multi_timer_outcomes", n as u64);
+                r.nontrivial(hash_json(&("legacy-multi", case_no, &script)));
+            }
+            Ok(Err((sig, what))) => r.violation(&sig, &what, json!({"lane": "timelab-legacy", "timers": k, "script_timer_action_noise": script, "what": what})),
+            Err(p) => {
+                r.violation(&format!("panic/{}", vcommon::panic_site(&p)), &format!("panic in a legacy multi-timer run: {p}"), json!({"lane": "timelab-legacy", "script_timer_action_noise": script}));
+                drop(r);
+                shell = TypedShell::<caplab::app::AppD>::new("Core(derive)");
             }
         }
     }
